@@ -27,3 +27,16 @@ USES = [
     'use std::ops::Deref;',
     'use vstd::std_specs::iter::IteratorSpec;',
 ]
+
+
+def value_api(unit, props, auto_props, skip=()):
+    """predicates of the value / context API that the bodies under contract may not use today; kept in a unit so that a changed body that
+    starts to use one still extracts and is judged by its contract (each is verified against its one-line definition)"""
+    V = 'feel/src/values.rs'
+    parts = []
+    for (fn, clause, text) in (('is_null', 'null_test', 'r == (self is Null)'), ('is_true', 'true_test', 'r == (*self == Value::Boolean(true))'), ('is_number', 'number_test', 'r == (self is Number)')):
+        if fn in skip:
+            continue
+        parts.append({'kind': 'fn', 'src': V, 'path': 'impl Value::fn ' + fn, 'key': '%s::Value::%s' % (unit, fn), 'props': props, 'auto_props': auto_props, 'loops': 0, 'ret': 'r',
+                      'ensures': [(clause, text)]})
+    return parts
